@@ -103,6 +103,9 @@ def run(chk):
                   dist=lambda sc, o: {'lifespan': sc['ops'][0].get('worker_lifespan'), 'n_jobs': sc['pool']['n_jobs'],
                                       'instances': min(len({c[3] for c in o.get('calls', [])}), 9)})
     ka = ka_histories(rng, 200 if chk.tier == 'quick' else 3000)
+    for _sc in ka:
+        if rng.random() < .25 and 'rules' not in _sc:
+            _sc['rules'] = gen.schedule_rules(rng, _sc['pool']['n_jobs'])      # adversarial schedules
     kobs = run_scenarios(chk, 'keep-alive histories under DetSim (per-instance shape over the whole history, exit results at the end)', ka, {'C11', 'C01', 'C02'},
                          nontrivial=lambda sc, o: len(sc['ops']) >= 3,
                          dist=lambda sc, o: {'calls': len(sc['ops']) - 1, 'lifespans': str(sorted({str(op.get('worker_lifespan')) for op in sc['ops'][:-1]})),
